@@ -120,6 +120,12 @@ func runC04(r *Run) {
 		r.Rule("C01.R5")
 		c01LogLeaf(r)
 	})
+
+	// the SCT list read back from a certificate: element for element, malformed lists refused (rule set of C03.R9)
+	r.Shared("C04.R8", func() {
+		r.Rule("C03.R9")
+		c03SCTListReader(r)
+	})
 }
 
 // ---- R1 ---------------------------------------------------------------------------
